@@ -375,6 +375,17 @@ def main(run):
                  lambda p: dict(radius=p["rad"], length=2.0 * p["aspect"] * p["rad"]), dict(aspect=(0.5, 8), rad=(10, 60)), "rad",
                  dict(insert_after={"": "aspect,rad"}, magnetic=True)))
     stats["moved_sld_magnetic"] = 1
+    # ... and with the new parameters placed BEHIND the orientation angles (the angle block is then no longer the tail
+    # of the table), all of them after phi, or split over theta and phi; evaluated in 2-D
+    real.append(("ellipsoid", [["volume", "Ang^3", 1e5, [0, inf], "volume", ""], ["eccentricity", "", 1, [0, inf], "volume", ""]],
+                 "Re = cbrt(volume/eccentricity/M_4PI_3)\nradius_polar = eccentricity*Re\nradius_equatorial = Re",
+                 lambda p: dict(radius_polar=p["eccentricity"] * (p["volume"] / p["eccentricity"] / (4 * math.pi / 3)) ** (1 / 3), radius_equatorial=(p["volume"] / p["eccentricity"] / (4 * math.pi / 3)) ** (1 / 3)),
+                 dict(volume=(5e4, 5e5), eccentricity=(0.3, 3.0)), "volume", dict(insert_after={"phi": "volume,eccentricity"}, all_2d=True)))
+    real.append(("cylinder", [["aspect", "", 2.0, [0, inf], "volume", ""], ["rad", "Ang", 20, [0, inf], "volume", ""]],
+                 "radius = rad\nlength = 2.0*aspect*rad",
+                 lambda p: dict(radius=p["rad"], length=2.0 * p["aspect"] * p["rad"]), dict(aspect=(0.5, 8), rad=(10, 60)), "rad",
+                 dict(insert_after={"theta": "aspect", "phi": "rad"}, all_2d=True)))
+    stats["new_parameters_behind_the_angles"] = 2
     real = [r_ if len(r_) == 7 else r_ + (dict(),) for r_ in real]
     for ri_, (bname, pdefs, text, tr, ranges, dpar, opts) in enumerate(real):
         binfo = load_model_info(bname)
@@ -388,7 +399,7 @@ def main(run):
         stats["real_models"] += 1
         oriented = any(p.type == "orientation" for p in binfo.parameters.call_parameters)
         for rep in range(3 if not thorough else 8):
-            dim = "2d" if oriented and rep % 3 == 2 else "1d"
+            dim = "2d" if oriented and (rep % 3 == 2 or (opts.get("all_2d") and rep > 0)) else "1d"
             qq = [np.array([0.01, 0.05, 0.12])] if dim == "1d" else [np.array([0.03, -0.06]), np.array([0.05, 0.02])]
             new = {k: rng.uniform(*v) for k, v in ranges.items()}
             common_pars = dict(scale=rng.uniform(0.5, 2), background=rng.uniform(0, 0.01))
